@@ -89,6 +89,56 @@ const PROBE_LAT: u64 = 20;
 /// tokio timer can span)
 const LONG_WAITS: [u64; 3] = [3_600_000, 31_536_000_000, 94_608_000_000];
 
+/// A long history on one bulkhead (anything an implementation does "every n-th call" or "after n
+/// rejections in a row" needs one): the slots are held for a long time, 70-130 callers arrive one
+/// after the other and time out, then the holders are cancelled (or finish) and the probe burst
+/// must find the full capacity.
+fn gen_many_callers(rng: &mut Rng) -> Scn {
+    let max = rng.range(1, 2) as u32;
+    let wait = *rng.pick(&[2u64, 5]);
+    let mk = |start_ms: u64, out: Outcome, lat_ms: u64, cancel: CancelSpec| Caller {
+        start_ms,
+        beh: Behaviour { lat_ms, out, yields: 0 },
+        cancel,
+        drop_unpolled: false,
+        depth: 0,
+        hold_unpolled_ms: 0,
+        svc: 0,
+        handle: 0,
+        hold_finished_ms: 0,
+    };
+    let mut callers = vec![];
+    let holders_cancelled = rng.chance(1, 2);
+    for _ in 0..max {
+        if holders_cancelled {
+            callers.push(mk(0, Outcome::Never, 0, CancelSpec::AtMs(700)));
+        } else {
+            callers.push(mk(0, Outcome::Ok, 200, CancelSpec::Never));
+        }
+    }
+    let n = rng.range(70, 130);
+    for i in 0..n {
+        callers.push(mk(1 + i, Outcome::Ok, 1, CancelSpec::Never));
+    }
+    Scn {
+        reentrant: vec![],
+        nested: false,
+        decoy_namesake: false,
+        inner_capacity: None,
+        two_services: false,
+        shared_handle: false,
+        pre: 0,
+        wait_first: rng.chance(1, 2),
+        max,
+        max_wait: Some(wait),
+        callers,
+        probes: max + 1,
+        probe_at: 1000,
+        listener_panic: false,
+        knobs: SchedKnobs::gen(rng, false, 60),
+    }
+}
+
 /// Holders that never finish and waiters with a very long max_wait: each waiter must still be
 /// rejected exactly max_wait after it arrived.
 fn gen_long_wait(rng: &mut Rng, max: u32) -> Scn {
@@ -144,6 +194,9 @@ pub fn gen(rng: &mut Rng) -> Scn {
     if rng.chance(1, 40) {
         return gen_long_wait(rng, max.clamp(1, 4));
     }
+    if rng.chance(1, 40) {
+        return gen_many_callers(rng);
+    }
     let n = rng.range(2, 12) as usize;
     let faulty = rng.chance(2, 3);
     let starts = [0u64, 0, 0, 1, 5, 5, 10, 10, 15, 20, 25, 30, 40];
@@ -198,7 +251,7 @@ pub fn gen(rng: &mut Rng) -> Scn {
 
 pub fn valid(s: &Scn) -> bool {
     (s.max <= 8 || s.max == u32::MAX)
-        && s.callers.len() <= 16
+        && (s.callers.len() <= 16 || (s.callers.len() <= 140 && s.reentrant.is_empty() && !s.two_services && !s.shared_handle && s.inner_capacity.is_none() && s.callers.iter().all(|c| !c.drop_unpolled && c.hold_unpolled_ms == 0 && c.hold_finished_ms == 0)))
         && !s.callers.is_empty()
         && s.callers.iter().all(|c| c.start_ms <= 500 && c.beh.lat_ms <= 200 && c.beh.yields <= 4)
         && s.max_wait.map(|w| w <= 100 || w == u64::MAX || (LONG_WAITS.contains(&w) && s.probes == 0 && s.knobs.jumps.is_empty())).unwrap_or(true)
